@@ -195,7 +195,8 @@ class RunInfo:
 def _requires_serialization(storage: str | dict[OUTPUT_TYPE, str]) -> bool:
     if isinstance(storage, str):
         return get_storage_class(storage).requires_serialization
-    return any(get_storage_class(s).requires_serialization for s in storage.values())
+    # Not a generator, such that all storage names are validated
+    return any([get_storage_class(s).requires_serialization for s in storage.values()])  # noqa: C419
 
 
 def _maybe_run_folder(
